@@ -35,6 +35,10 @@ def handle (args : List String) : String :=
     match Hex.dec f, Hex.dec t, decHexList el, decHexList ks with
     | some file, some tmpl, some elems, some keys => evalFuncs (o == "1") file tmpl elems keys
     | _, _, _, _ => "bad-args"
+  | ["parf", _, f, t, el, ks] =>
+    match Hex.dec f, Hex.dec t, decHexList el, decHexList ks with
+    | some file, some tmpl, some elems, some keys => evalFuncs true file tmpl elems keys
+    | _, _, _, _ => "bad-args"
   | ["inline", f, t, _, el, ks] =>
     match Hex.dec f, Hex.dec t, decHexList el, decHexList ks with
     | some file, some tmpl, some elems, some keys => evalFuncs true file tmpl elems keys
